@@ -11,7 +11,7 @@ if [ -f "$d/demo.py" ]; then
   (cd /repo && PYTHONPATH=/repo PYTHONDONTWRITEBYTECODE=1 /venv/bin/python "$d/demo.py" >/dev/null 2>&1); echo "demo on HEAD:    exit $?"
 fi
 cp /verif/evidence/$prop.json "$w/ev.json" 2>/dev/null
-cd /verif && FSIC_REPO="$w/r" ./check "$prop" "$tier" 2>&1 | tail -4
+cd /verif && FSIC_REPO="$w/r" ./check "$prop" "$tier" 2>&1 | grep -E "^VIOLATION|^INFRA|^$prop (quick|thorough)" | tail -4
 cp "$w/ev.json" /verif/evidence/$prop.json 2>/dev/null
 # keep the first failing input found as a corpus case (replayed first on every later run)
 last=$(ls -t /verif/replays/$prop-*.json 2>/dev/null | head -1)
